@@ -261,25 +261,33 @@ def judge : List String → String
     match v.splitOn "/" with
     | [a, b] => if a == b && a.toNat?.isSome then "ok" else "viol cached-profile-differs"
     | _ => "bad-op"
-  | "outage" :: mode :: unchanged :: mails :: toks =>
-    -- `c15_outage_readonly` on what the handlers did: every profile-changing route refused (the
-    -- direct delete failed or, primary reachable, done), logins and second factor checks answered,
-    -- both row sets unchanged, no side effect (no bootstrap OTP mailed)
+  | "outage" :: mode :: unchanged :: mails :: delsame :: toks =>
+    -- Third sentence of the statement: "While the primary is unreachable, logins and second-factor
+    -- checks continue from the cache but every operation that would change a profile is refused."
+    --  * refused = the client is not told that it happened (any answer other than success: 503, 500,
+    --    4xx — the statement does not say how a refusal is worded, nor whether it is decided before or
+    --    after the write is attempted) AND nothing happened: both row sets unchanged, no mail sent;
+    --  * the delete that carries no cached data (it never reads a profile) may also succeed while the
+    --    primary still accepts writes (modes t0/slow/rerr: not an outage for that write); if it does
+    --    not report success the rows must be unchanged after it as well (`delsame`);
+    --  * logins / second factor checks must be answered from the cache when the primary is silent;
+    --    for a primary that answers reads with errors (rerr) failing the request is acceptable too.
+    -- A handler that crashes (PANIC) has not refused anything.
     if !(mode == "t0" || mode == "slow" || mode == "down" || mode == "rerr") then "bad-op" else
     let bad := toks.filter fun t =>
       match t.splitOn "=" with
       | [name, v] =>
-        if name == "deleteUser" then !(v == "failed" || (mode != "down" && v == "ok"))
-        else if name == "addUser" then !(v == "refused" || v == "400" || (mode == "rerr" && v == "failed"))
-        else if (mutatingRoutes.map (·.1)).contains name then !(v == "refused" || (mode == "rerr" && v == "failed"))
+        if v == "PANIC" then true
+        else if name == "deleteUser" then
+          (v == "ok" && mode == "down") || (v != "ok" && delsame != "delsame=1")
+        else if (mutatingRoutes.map (·.1)).contains name then v == "ok"
         else if ["login", "authTOTP", "u2fSignReq", "waAuthBegin", "waAuthFinish"].contains name then
-          -- a primary that answers reads with errors: failing the request or serving it from the cache
-          -- are both acceptable; a silent primary: the check continues from the cache
           !(v == "ok" || (mode == "rerr" && (v == "failed" || v == "-")))
         else true
       | _ => true
     if unchanged != "unchanged=1" then "viol rows-changed-during-outage"
     else if mails != "mails=0" then s!"viol side-effect-during-outage {mails}"
+    else if !(delsame == "delsame=1" || delsame == "delsame=0") then "bad-op"
     else if bad.isEmpty then "ok" else s!"viol {" ".intercalate bad}"
   | ["cachesame", before, after] =>
     -- only a synchronisation may change the cache (`cache_nonsync`, `c15_restart_keeps_cache`)
